@@ -87,6 +87,7 @@ var fieldRoles = []fieldRole{
 	{pkgVikja, "State", "entityActions", "map[uint32]map[string]*github.com/aukilabs/hagall-common/messages/vikjapb.EntityAction", ""},
 	{pkgOdal, "State", "assetInstances", "map[uint32]*github.com/aukilabs/hagall-common/messages/odalpb.AssetInstance", ""},
 	{pkgWS, "handler", "sender", "github.com/aukilabs/hagall-common/websocket.Sender", ""},
+	{pkgWS, "handler", "receiver", "github.com/aukilabs/hagall-common/websocket.Receiver", ""},
 	{pkgWS, "handlerWithLogs", "closeSummaryWorker", "func()", ""},
 	{pkgVikja, "State", "entityActionMutex", tRW, ""},
 	{pkgOdal, "State", "assetMutex", tRW, ""},
